@@ -8,6 +8,9 @@ a crossing adds -net (a_to_b) or +net and happens only on initialised ticks reac
 exactly; the sync step applies each computed update to its own tick index.
 Also decided: the swap's tick-cursor and array hand-over rules, the array grid and the range validator of
 both packagings (instances of C10.R4-R6 and C18.R7 re-decided here);
+Also decided: add_liquidity_delta is l + d checked both ways with |d| taken unsigned; after the step computation exactly two
+tests (step ended at the tick's price, tick initialised) decide a crossing; every pool / tick / position write-back is
+unconditional (C12.R3 instances).
 Not decided: the sum equality over histories; the tick-array search (C10)."""
 from analysis import cfg, atoms as A, preach, writes
 from analysis.ir import callee_path, AnchorMissing
